@@ -40,6 +40,7 @@ import hashlib
 import json
 import math
 import os
+import re
 import sys
 from fractions import Fraction
 
@@ -134,6 +135,14 @@ def parse_q(tok):
 
 def fl(x):
     return float(x)
+
+
+def sfl(x):
+    """float of a (possibly huge) rational, +-inf instead of OverflowError"""
+    try:
+        return float(x)
+    except OverflowError:
+        return float("inf") if x > 0 else float("-inf")
 
 
 # ----------------------------------------------------------------------------- small float linear algebra
@@ -1266,6 +1275,11 @@ def plan_variants(chunk, counter, quick):
     return out
 
 
+def short_why(why):
+    """first informative part of a sanitizer / abort message (rulers and blank lines dropped)"""
+    return " ".join(x for x in re.sub(r"={5,}", " ", str(why)).split())[:500]
+
+
 def model_B_line(d):
     return "%s %d %s" % ({"mds": "MDS", "kpca": "KPCA", "isomap": "MDS"}[d["meth"]], d["n"], tab_q(d["table"]))
 
@@ -1319,7 +1333,7 @@ def eval_variants_inner(ctx, exe, mexe, tab, batches, stats):
         par = b["stream"] == "par"
         stats["variant_" + b["stream"]] = stats.get("variant_" + b["stream"], 0) + 1
         if r.crashed:
-            found.append((bi, 0, "tapkee::embed %s aborts / hangs: %s" % (context_text(b), str(r.why)[:500])))
+            found.append((bi, 0, "tapkee::embed %s aborts / hangs: %s" % (context_text(b), short_why(r.why))))
             continue
         if par and "team" in r.P:
             key = "par_team_%s" % r.P["team"].split()[0]
@@ -1414,7 +1428,7 @@ def eval_variants_inner(ctx, exe, mexe, tab, batches, stats):
                               "(Y^T Y = diag(lambda), B Y = Y diag(lambda), lambda = %s; per-column relative tolerance %.2g) "
                               "when %s: column squared norms %s; the plain serial call on the same table meets it" % (
                                   di, d["meth"], n, dd, res["top"], tau, context_text(b, r),
-                                  sorted(sum(Yf[a][cc] ** 2 for a in range(n)) for cc in range(dd)))))
+                                  sorted(sum(Yf[a][cc] * Yf[a][cc] for a in range(n)) for cc in range(dd)))))
     return found
 
 
@@ -1494,7 +1508,7 @@ def eval_huge(ctx, exe, mexe, cases, stats):
         if r.crashed:
             ctx.violation(slim(c), "finite input of huge magnitude (entries up to %.3g): tapkee::embed (or the routines it "
                           "calls) aborts / hangs instead of throwing an exception or returning a matrix: %s" % (
-                              max(abs(x) for row in c["table"] for x in row), str(r.why)[:500]))
+                              max(abs(x) for row in c["table"] for x in row), short_why(r.why)))
             continue
         if r.X is not None:
             key = "exception: " + r.X[:60]
@@ -1512,12 +1526,18 @@ def eval_huge(ctx, exe, mexe, cases, stats):
             second.append((c, E[2], [fl(x[0]) for x in refvals[2]]))
             mlines.append(model_B_line(c))
     mB = [model_matrix(x) for x in run_model(ctx, mexe, mlines)]
-    flines = []
+    flines, kept = [], []
     for (c, Yq, lam), Bm in zip(second, mB):
         n, d = c["n"], c["d"]
-        lmax = max(abs(x) for x in lam)
-        top = [max(x, 0.0) for x in lam[n - d:]]
-        flines.append(factor_line("dense", n, d, Bm, Yq, top, lmax)[0])
+        try:
+            lmax = max(abs(x) for x in lam)
+            top = [max(x, 0.0) for x in lam[n - d:]]
+            flines.append(factor_line("dense", n, d, Bm, Yq, top, lmax)[0])
+            kept.append((c, Yq, lam))
+        except (ArithmeticError, ValueError) as ex:
+            ctx.violation(slim(c), "finite input of huge magnitude: the factor specification cannot even be evaluated on the "
+                          "returned embedding (%s: %s)" % (type(ex).__name__, ex))
+    second = kept
     for (c, Yq, lam), o in zip(second, run_model(ctx, mexe, flines)):
         stats["spec_factor_checks"] += 1
         stats["huge_spec_checked"] = stats.get("huge_spec_checked", 0) + 1
@@ -1526,7 +1546,7 @@ def eval_huge(ctx, exe, mexe, cases, stats):
             ctx.violation(slim(c), "finite input of huge magnitude, every intermediate finite: the embedding violates the "
                           "factor specification (lambda = %s): column squared norms %s" % (
                               [max(x, 0.0) for x in lam[n - d:]],
-                              sorted(sum(fl(Yq[a][cc]) ** 2 for a in range(n)) for cc in range(d))))
+                              sorted(sfl(sum(Yq[a][cc] * Yq[a][cc] for a in range(n))) for cc in range(d))))
     return len(cases)
 
 
